@@ -64,3 +64,32 @@ Proof. vm_compute. tauto. Qed.
 Theorem rules_are_expasy_reference : MoPep.Gen.Expasy.site_rules = MoPep.Model.ExpasyRef.reference_rules.
 Proof. exact MoPep.Proofs.ExpasyProofs.rules_match_reference_proof. Qed.
 Print Assumptions rules_are_expasy_reference.
+
+(* ---- alternative-splicing and circRNA records (Model/SpecAS.v, Model/SpecCirc.v) ----
+   The obliged sets are what their definitions say, stated with explicit existentials (the engine is tied to them
+   by correspondence only, as for fusion). *)
+From MoPep Require Import Model.SpecFusion Model.SpecAS Model.SpecCirc Proofs.SpecASProofs Proofs.SpecCircProofs.
+
+(* p is obliged for the AS records rs  <->  some supplied record r that the statement covers (as_must_ok) yields
+   p as a product of the derived linear input (strict neighbourhood) carrying the empty or an obliged set of
+   small records, and p is neither a product of the unmodified transcript nor in the pool *)
+Theorem must_as_set_iff : forall x rs p,
+  In p (must_as_set x rs) <->
+  (exists r, In r rs /\ as_must_ok x r = true /\
+     let y := as_apply_gen false x r in
+     (In p (must_products y []) \/ exists h, In h (must_haps y) /\ In p (must_products y h))) /\
+  ~ RefProduct x p /\ ~ In p (in_pool x).
+Proof. exact must_as_set_iff_lemma. Qed.
+Print Assumptions must_as_set_iff.
+
+(* p is obliged for the circRNA c of the transcript x  <->  the empty set or some obliged set h of records strictly
+   inside a fragment, carried in every copy, an ATG in the FIRST turn of the haplotype sequence, p a closed
+   digestion product of that translation; p not a product of the linear transcript with or without its records,
+   not in the pool *)
+Theorem must_circ_set_iff : forall c x p,
+  In p (must_circ_set c x) <->
+  (exists h, (h = [] \/ (In h (haplotypes true (circ_vars false c)) /\ circ_must_hap h = true)) /\
+             In p (circ_must_products c h)) /\
+  ~ In p (ref_products x) /\ ~ In p (may_set x) /\ ~ In p (c_pool c).
+Proof. exact must_circ_set_iff_lemma. Qed.
+Print Assumptions must_circ_set_iff.
